@@ -6259,6 +6259,12 @@ bool SoPlexBase<R>::setIntParam(const IntParam param, const int value, const boo
          assert(_realLP != nullptr);
          _rationalLP->changeSense(_realLP->spxSense() == SPxLPBase<R>::MINIMIZE ? SPxLPRational::MINIMIZE :
                                   SPxLPRational::MAXIMIZE);
+
+         // coming from SYNCMODE_ONLYREAL the type arrays describe a rational LP that was freed (or one that was
+         // classified with another INFTY): they are not maintained in that mode
+         if(intParam(param) == SYNCMODE_ONLYREAL)
+            _recomputeRangeTypesRational();
+
          break;
 
       default:
